@@ -72,6 +72,9 @@ def run(case, lang):
         rec["answer"] = [] if answer is None else [answer]
         rec["res"] = [hlib.ser(res)] if res is not None else []
         rec["supers"] = [hlib.ser(s) for s in res.get_supertypes()] if res is not None and not exc else []
+        tv = type_vars_in(res, {}) if res is not None else {}
+        rec["vv"] = sorted([n, hlib.VNAME[v.variance.value]] for n, v in tv.items())
+        rec["eq"] = bool(res == results[o["r"] - 1]) if (o["op"] == "subst" and res is not None) else True
         rec["changed"] = [i + 1 for i, (a, b) in enumerate(zip(before, after)) if a != b]
         rec["tracked"] = len(before)
         steps.append(rec)
